@@ -1,8 +1,9 @@
 ----------------------------- MODULE MC_RefGen -----------------------------
 (* Reference-writer file generator (C06, C02, C03, C04, C16 fixtures): tables x layouts.   *)
 (* Every emitted case carries the file bytes and the content every chunk must decode to.   *)
-EXTENDS RefWriter, Values, TLC, Json
-CONSTANTS Tables, Mode, Seed        \* Mode: "valid" | "unsupported"
+EXTENDS RefWriter, Values, TLC, Json, Randomization
+CONSTANTS Tables, Mode, Seed,       \* Mode: "valid" | "unsupported"
+          PerGroup                  \* how many layouts are drawn (RandomSubset, TLC -seed) per (table, pages, extras, long, groups)
 VARIABLE st
 
 LeafRec(type, tlen, maxDef, maxRep, path) == [type |-> type, tlen |-> tlen, maxDef |-> maxDef, maxRep |-> maxRep, path |-> path]
@@ -52,7 +53,7 @@ Cuts(t, c, np) == LET n == Len(Cont(t, c, 1).defs)
 Styles == {"rle", "bp", "bp1", "mix", "zero", "pad1"}
 OptSpace == [style : Styles, idxStyle : {"rle", "bp", "mix"}, useDict : BOOLEAN, dictOffsetField : BOOLEAN,
              dictEnc : {0, 2}, dataEnc : {2, 8}, crc : {"none", "good"}, codec : {0}, stats : {NoStatsW}, extraWidth : {0, 2},
-             v2 : {FALSE}, encTag : {255}, codecTag : {255}]
+             v2 : {FALSE}, encTag : {255}, codecTag : {255}, hmutPage : {0}, hmut : {[kind |-> "none"]}]
 \* unsupported features: data page v2, encodings carquet does not implement (tag only differs; the payload
 \* is PLAIN, so a reader that ignores the tag returns *these* values - which would be wrong for a
 \* delta-encoded page; here a wrong answer cannot be told from a right one, hence only v2 and codec tags
@@ -74,7 +75,7 @@ Desc(t, o, np, extras, long, ng) ==
 Init == st = [lvl |-> 0]
 Next == \/ st.lvl = 0 /\ st' \in [lvl : {1}, t : Tables, np : {1, 2, 4}, extras : BOOLEAN, long : BOOLEAN, ng : {1, 2}]
         \/ st.lvl = 1 /\ st' \in [lvl : {2}, t : {st.t}, np : {st.np}, extras : {st.extras}, long : {st.long}, ng : {st.ng},
-                                  o : IF Mode = "valid" THEN OptSpace ELSE UnsOpts]
+                                  o : IF Mode = "valid" THEN RandomSubset(PerGroup, OptSpace) ELSE UnsOpts]
 
 Emit == st.lvl = 2 =>
     LET d == Desc(st.t, st.o, st.np, st.extras, st.long, st.ng)
